@@ -16,6 +16,7 @@ import (
 // hwmon discovery fills in, are carried over from the original. Checks that build their fans from the result see what a
 // user's configuration file really produces; the oracles stay the properties' own.
 var loaderState configuration.Configuration
+var loaderEntries int
 
 func fanConfigViaLoader(ctx *Ctx, cfg configuration.FanConfig) (configuration.FanConfig, error) {
 	dir := ctx.Path(uniqueId("vialoader"))
@@ -28,6 +29,13 @@ func fanConfigViaLoader(ctx *Ctx, cfg configuration.FanConfig) (configuration.Fa
 	if cfg.NeverStop {
 		sb.WriteString("    neverStop: true\n")
 	}
+	// the entry also names its control algorithm in one of the supported ways, the deprecated controlLoop included;
+	// that choice says nothing about limits, maps or paths
+	loaderEntries++
+	sb.WriteString([]string{"", "    controlAlgorithm: direct\n", "    controlAlgorithm: pid\n",
+		"    controlLoop:\n      p: 0.3\n      i: 0.02\n      d: 0.005\n",
+		"    controlAlgorithm:\n      direct:\n        maxPwmChangePerCycle: 10\n",
+		"    controlLoop:\n      p: 0.1\n      i: 0.01\n      d: 0.001\n"}[loaderEntries%6])
 	if cfg.MinPwm != nil {
 		fmt.Fprintf(&sb, "    minPwm: %d\n", *cfg.MinPwm)
 	}
